@@ -85,48 +85,57 @@ fn grab(
 
 /// Builds a real `App` with `with_auth_route`, runs it just long enough to get hold of its (otherwise private)
 /// route table through the public custom-connection-handler interface, and shuts it down again. The returned
-/// `SubApp` holds the very closure `with_auth_route` registered.
-fn auth_app(state: St) -> Option<(Arc<SubApp<St>>, Arc<St>)> {
+/// `SubApp` holds the very closure `with_auth_route` registered. Retries with a fresh state if the loopback
+/// port was taken by somebody else or the machine is too busy.
+fn auth_app(mk: &dyn Fn() -> (St, Db)) -> Option<(Arc<SubApp<St>>, Arc<St>, Db)> {
     let _l = APP_LOCK.lock().unwrap_or_else(|e| e.into_inner());
-    for _attempt in 0..20 {
-        let port = {
-            let l = TcpListener::bind("127.0.0.1:0").ok()?;
-            l.local_addr().ok()?.port()
+    for _attempt in 0..30 {
+        let port = match TcpListener::bind("127.0.0.1:0").and_then(|l| l.local_addr()) {
+            Ok(a) => a.port(),
+            Err(_) => continue,
         };
-        *SLOT.lock().unwrap() = None;
-        return {
-            let (tx, rx) = channel::<()>();
-            let app: App<St> = App::new_with_config(1, state)
-                .with_custom_connection_handler(grab)
-                .with_shutdown(rx)
-                .with_auth_route("/private/*", |_r: Request, _s: Arc<St>, uid: String| {
-                    Response::new(StatusCode::OK, format!("RAN:{}", uid))
-                });
-            let st = app.get_state();
-            let addr = format!("127.0.0.1:{}", port);
-            let a2 = addr.clone();
-            let th = std::thread::spawn(move || {
-                let _ = app.run(a2.as_str());
+        *SLOT.lock().unwrap_or_else(|e| e.into_inner()) = None;
+        let (state, db) = mk();
+        let (tx, rx) = channel::<()>();
+        let app: App<St> = App::new_with_config(1, state)
+            .with_custom_connection_handler(grab)
+            .with_shutdown(rx)
+            .with_auth_route("/private/*", |_r: Request, _s: Arc<St>, uid: String| {
+                Response::new(StatusCode::OK, format!("RAN:{}", uid))
             });
-            let mut got = None;
-            for _ in 0..400 {
-                if let Ok(c) = TcpStream::connect(addr.as_str()) {
-                    for _ in 0..400 {
-                        if let Some(s) = SLOT.lock().unwrap().take() {
-                            got = Some(s);
-                            break;
-                        }
-                        std::thread::sleep(Duration::from_millis(1));
-                    }
-                    drop(c);
-                    break;
-                }
-                std::thread::sleep(Duration::from_millis(2));
+        let st = app.get_state();
+        let addr = format!("127.0.0.1:{}", port);
+        let a2 = addr.clone();
+        let th = std::thread::spawn(move || {
+            let _ = app.run(a2.as_str());
+        });
+        let mut got = None;
+        'outer: for _ in 0..1500 {
+            if th.is_finished() {
+                break; // bind failed: the port was taken in the meantime
             }
-            let _ = tx.send(());
-            let _ = th.join();
-            got.map(|g| (g, st))
-        };
+            if let Ok(c) = TcpStream::connect(addr.as_str()) {
+                for _ in 0..3000 {
+                    if let Some(s) = SLOT.lock().unwrap_or_else(|e| e.into_inner()).take() {
+                        got = Some(s);
+                        drop(c);
+                        break 'outer;
+                    }
+                    if th.is_finished() {
+                        break;
+                    }
+                    std::thread::sleep(Duration::from_millis(1));
+                }
+                drop(c);
+                break;
+            }
+            std::thread::sleep(Duration::from_millis(2));
+        }
+        let _ = tx.send(());
+        let _ = th.join();
+        if let Some(g) = got {
+            return Some((g, st, db));
+        }
     }
     None
 }
@@ -275,17 +284,20 @@ fn route_request(cookie: &str, names: &Names) -> Vec<u8> {
 }
 
 fn run_seq(args: &[&str]) -> String {
-    let db = Db::default();
-    let provider = AuthProvider::new(db.clone()).with_config(mkcfg(args[0], args[1], args[2]));
-    let state = St { auth: Mutex::new(provider) };
+    let mk = || {
+        let db = Db::default();
+        let provider = AuthProvider::new(db.clone()).with_config(mkcfg(args[0], args[1], args[2]));
+        (St { auth: Mutex::new(provider) }, db)
+    };
     let needs_route = args[3..].iter().any(|o| o.starts_with("rt:"));
-    let (sub, st): (Option<Arc<SubApp<St>>>, Arc<St>) = if needs_route {
-        match auth_app(state) {
-            Some((s, st)) => (Some(s), st),
+    let (sub, st, db): (Option<Arc<SubApp<St>>>, Arc<St>, Db) = if needs_route {
+        match auth_app(&mk) {
+            Some((s, st, db)) => (Some(s), st, db),
             None => return "NOAPP".to_string(),
         }
     } else {
-        (None, Arc::new(state))
+        let (state, db) = mk();
+        (None, Arc::new(state), db)
     };
     let mut names = Names { uids: vec![], toks: vec![], tbase: 0 };
     let mut out: Vec<String> = Vec::new();
